@@ -80,14 +80,21 @@ pub fn check(p: &Pos, rep: &mut Report, rng: &mut StdRng, maps: &mut Maps) {
             // also the board's own successor, to tie the delta to make()
             let mut bb2 = load(p)?;
             bb2.make(mv);
-            Ok::<_, String>(Some((dx, dp, hn, (bb2.calculate_zobrist_hash(), bb2.calculate_zobrist_pawn_hash()))))
+            let hmade = (bb2.calculate_zobrist_hash(), bb2.calculate_zobrist_pawn_hash());
+            // ... and back up, as the search does with the hash it keeps for the parent node
+            bb2.unmake(mv);
+            let hback = (bb2.calculate_zobrist_hash(), bb2.calculate_zobrist_pawn_hash());
+            Ok::<_, String>(Some((dx, dp, hn, hmade, hback)))
         });
         let kind = move_kind(p, &u);
         match r {
             Err(pm) => rep.violation(&format!("xor-{}", panic_sig(&pm)), format!("zobrist_xor({}) panicked in {}: {}", u, fen, pm), json!({"kind":"c06","fen":fen,"move":u})),
             Ok(Err(e)) => rep.violation("load-failed", e, json!({"kind":"c06","fen":fen,"move":u})),
             Ok(Ok(None)) => rep.inconclusive("legal move not offered by the generator (C01 matter)"),
-            Ok(Ok(Some((dx, dp, hn, hmade)))) => {
+            Ok(Ok(Some((dx, dp, hn, hmade, hback)))) => {
+                if hback != h0 {
+                    rep.violation(&format!("hash-after-make-unmake-differs:{}", kind), format!("{} + {} and back: the board hashes {:x}/{:x}, before {:x}/{:x}", fen, u, hback.0, hback.1, h0.0, h0.1), json!({"kind":"c06","fen":fen,"move":u}));
+                }
                 if h0.0 ^ dx != hn.0 {
                     rep.violation(&format!("incremental-full-hash:{}", kind), format!("{} + {}: hash^delta = {:x}, recomputed {:x}", fen, u, h0.0 ^ dx, hn.0), json!({"kind":"c06","fen":fen,"move":u}));
                 }
@@ -267,4 +274,44 @@ pub fn variants(p: &Pos, rng: &mut StdRng) -> Vec<(&'static str, Pos)> {
 fn fix_rights(_v: &mut Pos) {
     // variants that would invalidate a castling right are filtered by the caller through
     // is_legal_position (rights need king and rook at home); nothing to do here.
+}
+
+/// The board carried along a walk is used the way a search node uses it: every pseudo-legal move
+/// is made (child hash = parent hash ^ delta, compared with the recomputed child hash when the
+/// child is a valid position) and unmade; afterwards the board must hash like the parent again,
+/// because the parent's incrementally kept hash is what the search goes on using.
+pub fn node_round_trip(p: &Pos, bb: &mut Bitboard, rep: &mut Report) {
+    let fen = p.to_fen();
+    let r = guarded_mut(|| {
+        let h = (bb.calculate_zobrist_hash(), bb.calculate_zobrist_pawn_hash());
+        let mut bad_child: Option<(String, u64, u64)> = None;
+        let mut n = 0u64;
+        for mv in bb.generate_pseudo_legal_moves() {
+            let (dx, dp) = Bitboard::zobrist_xor(mv);
+            bb.make(mv);
+            if bb.is_valid() {
+                n += 1;
+                let hc = (bb.calculate_zobrist_hash(), bb.calculate_zobrist_pawn_hash());
+                if (h.0 ^ dx, h.1 ^ dp) != hc && bad_child.is_none() {
+                    bad_child = Some((mv.to_uci_string(), h.0 ^ dx, hc.0));
+                }
+            }
+            bb.unmake(mv);
+        }
+        let back = (bb.calculate_zobrist_hash(), bb.calculate_zobrist_pawn_hash());
+        (h, back, bad_child, n)
+    });
+    match r {
+        Err(pm) => rep.violation(&format!("node-round-trip-{}", panic_sig(&pm)), format!("panicked in {}: {}", fen, pm), json!({"kind":"c06","fen":fen})),
+        Ok((h, back, bad_child, n)) => {
+            rep.count("node_round_trips");
+            rep.add("node_round_trip_children", n);
+            if let Some((u, inc, rec)) = bad_child {
+                rep.violation("node-child-incremental-hash", format!("{} + {} on the carried board: parent^delta {:x}, recomputed {:x}", fen, u, inc, rec), json!({"kind":"c06","fen":fen,"move":u}));
+            }
+            if back != h {
+                rep.violation("node-hash-changed-after-visiting-children", format!("{}: after making and unmaking every pseudo-legal move the board hashes {:x}/{:x}, before {:x}/{:x}", fen, back.0, back.1, h.0, h.1), json!({"kind":"c06","fen":fen}));
+            }
+        }
+    }
 }
